@@ -321,6 +321,45 @@ Proof.
   intros s d H. unfold json_keys, to_json. rewrite H. apply jinsert_keys. left. reflexivity.
 Qed.
 
+(* the exported execution time is elapsed() in whole milliseconds (no wrap at one second) *)
+Lemma jlookup_jinsert_same : forall n e l, jlookup n (jinsert n e l) = Some e.
+Proof.
+  intros n e l. induction l as [|[k x] r IH]; cbn [jinsert jlookup].
+  - rewrite Z.eqb_refl. reflexivity.
+  - destruct (Z.eqb k n) eqn:E; cbn [jlookup]; rewrite E; [reflexivity|exact IH].
+Qed.
+Lemma jlookup_base_notime : forall n (st : store) ms,
+  jlookup n (map (fun p => (fst p, JMetric (snd p))) st) <> Some (JTime ms).
+Proof.
+  intros n st ms. induction st as [|[k m] r IH]; cbn [map jlookup fst snd].
+  - discriminate.
+  - destruct (Z.eqb k n); [discriminate|exact IH].
+Qed.
+Theorem json_time_elapsed : forall s,
+  json_time s = option_map (fun d => d / 1000000)%Z (elapsed s).
+Proof.
+  intros s. unfold json_time, to_json. destruct (elapsed s) as [d|]; cbn [option_map].
+  - rewrite jlookup_jinsert_same. reflexivity.
+  - destruct (jlookup exec_time_name _) as [[m|ms]|] eqn:E; try reflexivity.
+    exfalso. exact (jlookup_base_notime _ _ _ E).
+Qed.
+Theorem json_time_after_run :
+  forall (C R : Type) (plan : outcome C) (exec : C -> outcome R) (clk : nat -> Z)
+         (i j : nat) (m : mstate) (r : R) (slept_ms : Z),
+    monotone clk -> (i <= j)%nat ->
+    ms_poisoned m = false ->
+    fst (run_collect true plan exec clk i j m) = Ok r ->
+    (slept_ms * 1000000 <= clk j - clk i)%Z ->
+    let m' := snd (run_collect true plan exec clk i j m) in
+    json_time m' = Some ((clk j - clk i) / 1000000)%Z /\
+    (slept_ms <= (clk j - clk i) / 1000000)%Z.
+Proof.
+  intros C R plan exec clk i j m r k Hmono Hij Hm Hok Hk m'.
+  destruct (elapsed_some_nonneg C R plan exec clk i j m r Hmono Hij Hm Hok) as [He _].
+  fold m' in He. rewrite json_time_elapsed, He. cbn [option_map]. split; [reflexivity|].
+  apply Z.div_le_lower_bound; lia.
+Qed.
+
 Lemma exec_nodup : forall x s,
   NoDup (map fst (ms_metrics s)) -> NoDup (map fst (ms_metrics (fst (exec_section x s)))).
 Proof.
